@@ -64,6 +64,16 @@ def oracle(case, rec):
     cyc, sub, chain = build(lengths, gaps, sel)
     N, K, S = len(cyc), len(sub), len(chain)
     H = int(chain.max()) + 1 if S else 0
+    # the structures the maps work on, as the library itself builds them from the selection
+    try:
+        esub = np.asarray(emd.cycles.get_subset_vector(np.asarray(sel, dtype=bool)))
+        echain = np.asarray(emd.cycles.get_chain_vector(esub))
+    except Exception as e:
+        raise Violation('C16/get_subset_vector+get_chain_vector/raises/' + type(e).__name__, repr(e))
+    if not np.array_equal(esub, sub):
+        raise Violation('C16/get_subset_vector/wrong', 'selection %r: got %r expected %r' % (list(sel), esub.tolist(), sub.tolist()))
+    if not np.array_equal(echain, chain):
+        raise Violation('C16/get_chain_vector/wrong', 'selection %r: got %r expected %r' % (list(sel), echain.tolist(), chain.tolist()))
     desc = 'cyc=%r sub=%r chain=%r' % (cyc.tolist()[:60], sub.tolist()[:40], chain.tolist()[:40])
 
     def call(name, tag, *a):
